@@ -13,7 +13,7 @@ Directives (lines whose first non-blank characters are `//@`):
   //@assoc  <leading tokens>          copy an associated item (e.g. `type Error`) up to `;`
   //@fn <name> [ret=<ident>] [props=C01,C02] [file=<file>] [nth=<k>] [external_body]
   //@| <text>                         spec text, placed between signature and body (or at loop / hint anchor)
-  //@edit[opts] OLD ~~> NEW           replace token sequence OLD inside the body (opts: n=<count>, wrap, sig, first = only the first remaining occurrence)
+  //@edit[opts] OLD ~~> NEW           replace token sequence OLD inside the body (opts: n=<count>, wrap, sig, first = only the first remaining occurrence, any = every occurrence / none)
   //@loop <k>                         following //@| lines are attached to the k-th loop (1-based)
   //@before[k] TOKENS / //@after[k] TOKENS   following //@| lines are ghost text inserted there
   //@endfn                            (optional) ends the fn directive group
@@ -579,7 +579,7 @@ class Expander:
         body_pieces = self._cfg_in_body(body_pieces, name)
         for eo, old, new in edits:
             eopts = dict((kv.split("=") + [True])[:2] for kv in eo.split(",") if kv)
-            cnt = int(eopts.get("n", 1))
+            cnt = None if "any" in eopts else int(eopts.get("n", 1))   # any: every occurrence, none is fine too
             target = body_pieces
             if "sig" in eopts:
                 pieces = self._replace_in_pieces(pieces, norm(lex_frag(old)), new, cnt, "fn %s edit" % name)
